@@ -174,11 +174,50 @@ class Run:
         self.cov["evaluations"] += nrec
         return v
 
+    def validate_sharded(self, module, trace, boundary='"ev":"reset"', shards=14, **kw):
+        """Split a trace made of independent chains (each starting with a `boundary` record) into shards and
+        validate them with parallel TLC processes; verdict indices are mapped back to the whole trace."""
+        from concurrent.futures import ThreadPoolExecutor
+        starts = []
+        n = 0
+        with open(trace) as f:
+            for i, line in enumerate(f):
+                n += 1
+                if boundary in line[:200] or boundary in line:
+                    starts.append(i)
+        if not starts or starts[0] != 0:
+            starts = [0] + starts
+        per = max(1, n // shards)
+        cuts = [0]
+        for st in starts:
+            if st - cuts[-1] >= per:
+                cuts.append(st)
+        cuts.append(n)
+        files = []
+        with open(trace) as f:
+            for k in range(len(cuts) - 1):
+                p = "%s.shard%d" % (trace, k)
+                with open(p, "w") as o:
+                    for _ in range(cuts[k + 1] - cuts[k]):
+                        o.write(f.readline())
+                files.append((p, cuts[k]))
+        with ThreadPoolExecutor(max_workers=min(16, len(files))) as ex:
+            res = list(ex.map(lambda pf: self.validate(module, pf[0], **kw), files))
+        bad, drift = [], []
+        for (p, off), v in zip(files, res):
+            bad += [dict(i=b["i"] + off, why=b["why"]) for b in v.get("bad", [])]
+            drift += [d + off for d in v.get("drift", [])]
+            os.remove(p)
+        return dict(n=n, bad=bad, drift=drift)
+
     # ---------------------------------------------------------------- verdicts
-    def judge(self, verdict, trace, label=""):
+    def judge(self, verdict, trace, label="", only=None):
         """Turn the TLA+ verdict of one trace into violations / known findings. `bad` entries are
         [i |-> record index (1-based), why |-> seq of signature strings computed by the trace spec]."""
         bad = verdict.get("bad", [])
+        if only:   # a shared trace serves several properties: keep the signatures that decide this one
+            bad = [dict(i=b["i"], why=[w for w in b["why"] if w.startswith(only)]) for b in bad]
+            bad = [b for b in bad if b["why"]]
         drift = verdict.get("drift", [])
         self.cov["spec_drift"] += len(drift)
         if drift:
